@@ -174,7 +174,7 @@ def impl_init():
                         "proto": ip.proto if ip.version == 4 else 6, "sport": tcp.sport, "dport": tcp.dport, "seq": tcp.seq, "ack": tcp.ack,
                         "flags": int(tcp.flags), "urg": tcp.urgptr, "win": tcp.window, "mss": int_only(opts.get("MSS")), "ws": int_only(opts.get("WScale")),
                         "ts1": int_only(ts[0]), "ts2": int_only(ts[1]), "payload": bytes(tcp.payload).hex()}}
-        given = Ether() / base if c["ether"] else base
+        given = Ether(src="02:00:00:00:00:01", dst="02:00:00:00:00:02") / base if c["ether"] else base
         kw = {}
         if c["mtu"] != 1500:
             kw["mtu"] = c["mtu"]
